@@ -27,16 +27,27 @@ Proof.
   specialize (IHl j H). lia.
 Qed.
 
-Lemma room_upd_rearm i f (l : list rep) :
-  (forall r, attempts (f r) = if max_replica_attempt <=? attempts r then max_replica_attempt - 1 else attempts r) ->
-  room_l (map attempts (upd i f l)) <=
-  room_l (map attempts l) + (if max_replica_attempt <=? nth i (map attempts l) max_replica_attempt then 1 else 0).
+Lemma room_upd_rearm i f (g : rep -> bool) (l : list rep) :
+  (forall r, attempts (f r) = if g r then max_replica_attempt - 1 else attempts r) ->
+  room_l (map attempts (upd i f l)) <= room_l (map attempts l) + (if g (nth i l dummy_rep) then 1 else 0).
 Proof.
   intros H. revert i; induction l as [|a l IHl]; intros [|j];
-    cbn [map upd nth room_l]; try (destruct (_ <=? _); lia).
-  - rewrite H. destruct (max_replica_attempt <=? attempts a) eqn:E; [apply Nat.leb_le in E | apply Nat.leb_gt in E];
-      unfold max_replica_attempt in *; lia.
-  - specialize (IHl j). destruct (_ <=? _); lia.
+    cbn [map upd nth room_l]; try (destruct (g _); lia).
+  - rewrite H. destruct (g a); unfold max_replica_attempt in *; lia.
+  - specialize (IHl j). destruct (g _); lia.
+Qed.
+
+Lemma room_upd_inc_le i (l : list rep) :
+  room_l (map attempts (upd i (fun r => set_attempts (S (attempts r)) r) l)) <= room_l (map attempts l).
+Proof.
+  revert i; induction l as [|a l IHl]; intros [|j];
+    cbn [map upd nth room_l attempts set_attempts] in *; unfold max_replica_attempt in *; try lia.
+  specialize (IHl j). lia.
+Qed.
+
+Lemma nth_upd_other {A} (g : A -> nat) f i j (l : list A) d : i <> j -> nth j (map g (upd i f l)) d = nth j (map g l) d.
+Proof.
+  revert i j; induction l as [|a l IH]; intros [|i] [|j] H; cbn [map upd nth]; auto; try congruence.
 Qed.
 
 Lemma n_attempts_app a b : n_attempts (a ++ b) = n_attempts a + n_attempts b.
@@ -71,8 +82,10 @@ Lemma atts_set_bo_total v s : atts (set_bo_total v s) = atts s. Proof. reflexivi
 Lemma atts_set_bo_excl v s : atts (set_bo_excl v s) = atts s. Proof. reflexivity. Qed.
 Lemma atts_set_orc_r v s : atts (set_orc_r v s) = atts s. Proof. reflexivity. Qed.
 Lemma atts_set_orc_s v s : atts (set_orc_s v s) = atts s. Proof. reflexivity. Qed.
-#[export] Hint Rewrite atts_set_leader atts_set_valid atts_set_rt atts_set_sel_attempts atts_set_inv_retry atts_set_busy_thr atts_set_lb_count atts_set_lb_peer atts_set_lb_probed atts_set_q_rt atts_set_q_rr atts_set_q_stale atts_set_q_retry atts_set_bo_total atts_set_bo_excl atts_set_orc_r atts_set_orc_s : atts_db.
-Ltac att_same := intros ?r; repeat match goal with |- context [if ?b then _ else _] => destruct b end; reflexivity.
+Lemma atts_set_proxy v s : atts (set_proxy v s) = atts s. Proof. reflexivity. Qed.
+Lemma atts_set_rearmed_v v s : atts (set_rearmed_v v s) = atts s. Proof. reflexivity. Qed.
+#[export] Hint Rewrite atts_set_leader atts_set_valid atts_set_rt atts_set_sel_attempts atts_set_inv_retry atts_set_busy_thr atts_set_lb_count atts_set_lb_peer atts_set_lb_probed atts_set_q_rt atts_set_q_rr atts_set_q_stale atts_set_q_retry atts_set_bo_total atts_set_bo_excl atts_set_orc_r atts_set_orc_s atts_set_proxy atts_set_rearmed_v : atts_db.
+Ltac att_same := intros ?r; unfold inval_store; repeat match goal with |- context [if ?b then _ else _] => destruct b end; reflexivity.
 Ltac atts_norm := repeat (first [ progress autorewrite with atts_db | rewrite atts_upd_same by att_same ]).
 
 (* ---- handling an outcome: room grows only by re-arms, no attempt is made ---- *)
@@ -111,7 +124,8 @@ Proof.
   unfold on_send_fail. destruct (d && c_short_to c && c_read c).
   - atts_norm. auto.
   - match goal with |- context [with_backoff c BoRPC ?x RError] => set (s2 := x) end.
-    assert (H : atts s2 = atts s) by (subst s2; destruct (is_reachable l); atts_norm; reflexivity).
+    assert (H : atts s2 = atts s)
+      by (subst s2; cbv zeta; repeat match goal with |- context [if ?b then _ else _] => destruct b end; atts_norm; reflexivity).
     pose proof (with_backoff_spec c BoRPC s2 RError) as W.
     destruct (with_backoff c BoRPC s2 RError); auto. destruct W as (W & ?). rewrite W. auto.
 Qed.
@@ -119,8 +133,8 @@ Qed.
 Lemma room_eq s s' : atts s' = atts s -> room s' = room s.
 Proof. unfold room. now intros ->. Qed.
 
-Lemma on_not_leader_hint_spec s t k :
-  match on_not_leader_hint s t k with
+Lemma on_not_leader_hint_spec once s t k :
+  match on_not_leader_hint once s t k with
   | HRetry s' evs => room s' <= room s + n_rearms evs /\ n_attempts evs = 0
   | HDone _ evs => evs = []
   end.
@@ -131,18 +145,24 @@ Proof.
   destruct (length (reps s1) <=? k). { unfold room; atts_norm. rewrite H1. simpl. split; [lia|reflexivity]. }
   destruct (negb (is_reachable (live (rep_at s1 k)))). { rewrite (room_eq _ _ H1). simpl. split; [lia|reflexivity]. }
   match goal with |- context [set_leader k ?x] => set (s2 := x) end.
-  assert (H2 : room s2 <= room s1 + (if exhausted (rep_at s1 k) max_replica_attempt then 1 else 0)).
-  { subst s2. unfold room, atts at 1, upd_rep. cbn [reps set_reps]. unfold exhausted. rewrite att_at_rep. unfold att_at.
-    apply room_upd_rearm. intros r. unfold exhausted. destruct (max_replica_attempt <=? attempts r); reflexivity. }
+  set (w := exhausted (rep_at s1 k) max_replica_attempt && (negb once || negb (nth k (rearmed_v s1) true))) in *.
+  assert (H2 : room s2 <= room s1 + (if w then 1 else 0)).
+  { subst s2. unfold room, atts at 1, upd_rep. cbn [reps set_reps].
+    assert (E : reps (if w && once then set_rearmed_v (upd k (fun _ : bool => true) (rearmed_v s1)) s1 else s1) = reps s1)
+      by (destruct (w && once); reflexivity).
+    rewrite E. fold (atts s1).
+    pose proof (room_upd_rearm k (fun r => set_f_suspect false (set_f_notleader false (if w then set_attempts (max_replica_attempt - 1) r else r)))
+                  (fun _ => w) (reps s1)) as L.
+    cbv beta in L. unfold atts. apply L. intros r. destruct w; reflexivity. }
   match goal with |- room ?x <= _ /\ _ => assert (H4 : atts x = atts s2) end.
   { destruct (leader_candidate _); atts_norm; reflexivity. }
   rewrite (room_eq _ _ H4). rewrite (room_eq _ _ H1) in H2.
-  destruct (exhausted (rep_at s1 k) max_replica_attempt);
+  destruct w;
     unfold n_rearms, n_attempts; cbn [filter is_rearm is_att length]; split; try lia; reflexivity.
 Qed.
 
-Lemma handle_spec c s t o i :
-  match handle c s t o i with
+Lemma handle_spec once c s t o i :
+  match handle once c s t o i with
   | HRetry s' evs => room s' <= room s + n_rearms evs /\ n_attempts evs = 0
   | HDone _ evs => evs = []
   end.
